@@ -74,12 +74,12 @@ LPE_RULES = Q_RULES + [
     Rule(r"Interaction::from_(failure|absorption)\(\)", r"Interaction_from_\1()", "+", note="static factory (extracted)"),
     Rule(r"SubshellId shell_id = this->sample_subshell\(rng\);", "size_type shell_id = LPE_sample_subshell(self, rng);", 1, note="member call -> stub"),
     Rule(r"\(!shell_id\)", "(shell_id == INVALID_ID)", 1, note="OpaqueId::operator bool"),
-    Rule(r"Energy\{inc_energy_\}", "self->inc_energy_", "*", note="Quantity construction"),
+    Rule(r"(?<!->)\binc_energy_\b", "self->inc_energy_", "+", note="data member"),
     Rule(r"\{\s*auto const& el = shared_\.xs\.elements\[el_id_\];.*?binding_energy\);\s*\}", "binding_energy = LPE_binding_energy(self, shell_id);", 1, flags=16, note="table lookup of the shell's binding energy -> stub"),
     Rule(r"CELER_ASSERT\(!secondaries\.empty\(\)\);", "CELER_ASSERT(secondaries.size != 0);", 1, note="Span::empty()"),
     Rule(r"Secondary& electron = secondaries\.front\(\);", "Secondary* electron = &secondaries.ptr[0];", 1, note="reference -> pointer"),
     Rule(r"electron\.particle_id = shared_\.ids\.electron;", "electron->particle_id = self->electron_id;", 1, note="params id"),
-    Rule(r"electron\.energy = \(inc_energy_ - binding_energy\);|electron\.energy = Energy\{inc_energy_ - binding_energy\};", "electron->energy = self->inc_energy_ - binding_energy;", 1, note="Quantity construction"),
+    Rule(r"electron\.energy = ", "electron->energy = ", 1, note="reference -> pointer"),
     Rule(r"electron\.direction = this->sample_direction\(rng\);", "electron->direction = LPE_sample_direction(self, rng);", 1, note="member call -> stub"),
     Rule(r"if \(relaxation_\)", "if (self->relaxation_.enabled)", 1, note="helper operator bool"),
     Rule(r"AtomicRelaxation sample_relaxation = relaxation_\.build_distribution\(\s*cutoffs_, shell_id, secondaries\.subspan\(1\)\);", "SpanSecondary sub_ = {secondaries.ptr + 1, secondaries.size - 1};", 1, note="distribution construction -> the subspan it writes to"),
@@ -94,8 +94,8 @@ def build_livermore(ctx):
     return (HDR + INTERACTION_MODEL + interaction_factories(ctx) + LPE_MODEL + """
 #define NCOUNT (self->relaxation_.enabled ? 1 + self->relaxation_.max_secondaries_ : 1)
 Interaction LPE_call(LivermorePEInteractor const* self, Engine* rng)
-__CPROVER_requires(self != 0 && self->inc_energy_ > 0 && !__CPROVER_isinfd(self->inc_energy_) && self->relaxation_.max_secondaries_ <= 16 && self->electron_id != INVALID_ID && g_draws == 0)
-__CPROVER_requires(g_cap <= 64 && __CPROVER_rw_ok(g_buf, g_cap * sizeof(Secondary)) && g_k < g_cap && g_old.particle_id == g_buf[g_k].particle_id && g_old.energy == g_buf[g_k].energy)
+__CPROVER_requires(self != 0 && self->inc_energy_ > 0 && !__CPROVER_isinfd(self->inc_energy_) && self->relaxation_.max_secondaries_ <= 3 && self->electron_id != INVALID_ID && g_draws == 0)
+__CPROVER_requires(g_cap <= 5 && __CPROVER_rw_ok(g_buf, 5 * sizeof(Secondary)) && g_k < 5 && g_old.particle_id == g_buf[g_k].particle_id && g_old.energy == g_buf[g_k].energy)
 __CPROVER_assigns(g_draws, g_requested, g_relax, __CPROVER_object_whole(g_buf))
 /* storage exhausted: explicit failure, no random draw consumed, nothing written */
 __CPROVER_ensures(!(g_alloc_ok && NCOUNT <= g_cap) ==> (__CPROVER_return_value.action == IA_failed && g_draws == 0 && __CPROVER_return_value.secondaries.size == 0 && g_buf[g_k].particle_id == g_old.particle_id && g_buf[g_k].energy == g_old.energy))
@@ -112,8 +112,8 @@ __CPROVER_ensures((g_alloc_ok && NCOUNT <= g_cap) ==> __CPROVER_return_value.ene
 void h_lpe(void)
 {
     LivermorePEInteractor m; Engine* e; size_type cap, k; unsigned r1, r2;
-    __CPROVER_assume(cap <= 64 && k < cap);
-    Secondary* buf = malloc((cap ? cap : 1) * sizeof(Secondary)); __CPROVER_assume(buf != 0);
+    __CPROVER_assume(cap <= 5 && k < 5);
+    Secondary buf[5];
     g_buf = buf; g_cap = cap; g_k = k; g_alloc_ok = (r1 != 0); m.relaxation_.enabled = (r2 != 0);
     g_old = buf[k];
     LPE_call(&m, e);
